@@ -216,6 +216,20 @@ def _mk_subset():
                                          'add': OperatorAdd})
 
 
+def _mk_nopar():
+    # a table with function operators but without the plain parenthesis: '(4)+1' is an error
+    return ExpressionSolver(FaultyAtom, {'sqrt': OperatorSqrt, 'exp': OperatorExp,
+                                         'mul': OperatorMul, 'add': OperatorAdd})
+
+
+def _mk_loose():
+    # operators that no step mentions: expressions using them end with unprocessed tokens
+    steps = [dict(operators=['par'], otype=Otype.ARGS),
+             dict(operators=['add', 'sub'], otype=Otype.BINARY)]
+    return ExpressionSolver(FaultyAtom, {'par': OperatorPar, 'add': OperatorAdd, 'sub': OperatorSub,
+                                         'mul': OperatorMul, 'truediv': OperatorTruediv}, steps)
+
+
 def _mk_steps():
     # additive step before the multiplicative one, comparisons last
     order = ["args", "sign", "pow", "add", "mul", "cmp", "not", "and", "or"]
@@ -304,6 +318,8 @@ def _mk_factory():
 KINDS = {
     "steps2": (_mk_steps2, "numeric"),
     "customop": (_mk_customop, "customop"),
+    "nopar": (_mk_nopar, "nopar"),
+    "loose": (_mk_loose, "loose"),
     "arrays": (_mk_arrays, "arrays"),
     "factory": (_mk_factory, "numeric"),
     "base": (_mk_base, "numeric"),
@@ -314,7 +330,7 @@ KINDS = {
     "unit": (_mk_unit, "unit"),
 }
 KIND_ORDER = ["base", "faulty", "string", "subset", "steps", "unit", "factory", "steps2",
-              "arrays", "customop"]
+              "arrays", "customop", "nopar", "loose"]
 
 
 # expression generator ---------------------------------------------------------
@@ -400,6 +416,34 @@ def gen_subset(rng, depth):
     return expr(depth)
 
 
+def gen_nopar(rng, depth):
+    def expr(d):
+        r = rng.random()
+        if d <= 0 or r < 0.3:
+            return [rng.choice(NUMS + ["foo", "bar"])]
+        if r < 0.5:
+            return expr(d - 1) + ["+"] + expr(d - 1)
+        if r < 0.65:
+            return expr(d - 1) + ["*"] + expr(d - 1)
+        if r < 0.88:
+            return [rng.choice(["sqrt(", "exp("])] + expr(d - 1) + [")"]
+        return ["("] + expr(d - 1) + [")"]          # no such operator in this table
+    return expr(depth)
+
+
+def gen_loose(rng, depth):
+    def expr(d):
+        r = rng.random()
+        if d <= 0 or r < 0.3:
+            return [rng.choice(NUMS + ["foo", "bar"])]
+        if r < 0.55:
+            return expr(d - 1) + [rng.choice(["+", "-"])] + expr(d - 1)
+        if r < 0.85:
+            return expr(d - 1) + [rng.choice(["*", "/"])] + expr(d - 1)   # in no step
+        return ["("] + expr(d - 1) + [")"]
+    return expr(depth)
+
+
 WORDS = ["limit", "a", "bc", "100 km", "x y z", "foo", ""]
 
 
@@ -444,6 +488,8 @@ CANARIES = {
     "string": ["a", "a+bc", "(a+bc)>x y z", "limit+100 km"],
     "unit": ["m", "kg*m2/s2", "km/(s*K)", "1e3*J"],
     "arrays": ["foo", "foo - 1", "foo * 2", "foo + bar", "bar / 2 - foo", "zero + 1"],
+    "nopar": ["1", "sqrt(16)+1", "2*3+1", "(4)+1", "exp(0)*2"],
+    "loose": ["1", "1+2", "8/2*4", "(1+2)-3", "2*3", "8*2/4"],
     "customop": ["1", "hyp(3; 4)", "pow(2, 3)", "avg[1, 3]*2", "logb(8, 2)+hyp(6; 8)", "(1+2)*3"],
 }
 _DEEP = "(" * 49 + "1+2" + ")" * 49
@@ -469,7 +515,7 @@ def text_fault(tokens, kind, pos, family):
     n = len(tokens)
     order = list(range(pos % n, n)) + list(range(0, pos % n))
     bad = {"numeric": "qux", "subset": "qux", "string": "BAD", "unit": "xyz",
-           "arrays": "qux", "customop": "qux"}[family]
+           "arrays": "qux", "customop": "qux", "nopar": "qux", "loose": "qux"}[family]
     if kind == "unknown_atom":
         for i in order:
             if is_atom_token(tokens[i]):
@@ -552,6 +598,10 @@ def gen_tokens(rng, family, depth):
         return gen_numeric(rng, depth, True, custom=True)
     if family == "subset":
         return gen_subset(rng, depth)
+    if family == "nopar":
+        return gen_nopar(rng, depth)
+    if family == "loose":
+        return gen_loose(rng, depth)
     if family == "string":
         return gen_string(rng, depth)
     return gen_unit(rng, depth)
@@ -855,6 +905,8 @@ class SolverMachine(Machine):
         simple = {"arrays": ["foo", "foo-1", "(foo", "foo+qux"],
                   "numeric": ["1", "1+", "(1", "1+qux", "1+1"],
                   "customop": ["1", "hyp(3;4)", "pow(2,3)", "(1)", "avg[1,3]", "1+qux"],
+                  "nopar": ["1", "sqrt(4)", "(4)", "1+qux", "1+1"],
+                  "loose": ["1", "1+2", "2*3", "8/2", "8/2*4", "1+qux"],
                   "subset": ["1", "1+", "(1", "1+qux", "1+1"],
                   "string": ["a", "a+", "(a", "a+BAD", "a+a"],
                   "unit": ["m", "m*", "(m", "m*xyz", "m*s"]}[fam]
